@@ -440,3 +440,79 @@ func segLens(s [][]byte) []int {
 	}
 	return out
 }
+
+// TestC07ClosingStuck (REAL time): Close from Selected against a peer that has stopped reading. The
+// state is NotConnected at once, but the socket stays open while the courtesy Separate is stuck in
+// its write (up to 500 ms); what the peer writes in that window is data received while not selected.
+// (Not runnable in a bubble: the Reject the library owes the peer queues behind the stuck write.)
+func TestC07ClosingStuck(t *testing.T) {
+	ev.Rule("HSMS-SS, both roles, real time: Selected; the peer stops reading (window 0); Close is called and parks in its farewell write; as soon as State() reports NotConnected the peer writes 1-3 data frames (primaries and secondaries, drawn stream/function/W); oracle: no handler is called for them, neither before nor after Close returns, and Close returns nil within 4 s; non-trivial = always")
+	vt.Check(t, 60, 3000, func(rt *rapid.T) {
+		active := rapid.Bool().Draw(rt, "active")
+		session := genSession(rt, 0x0101)
+		w, err := newWorld(worldOpt{active: active, connOpts: []hsms.ConnOption{hsms.WithSessionID(session), hsms.WithT7(30 * time.Second), hsms.WithT6(10 * time.Second), hsms.WithCloseTimeout(time.Second)}})
+		if err != nil {
+			rt.Fatalf("VERIF-INFRA: %v", err)
+		}
+		w.realTime = true
+		dl := &deliveries{}
+		w.conn.AddDataMessageHandler(dl.handler)
+		if err := w.conn.Open(context.Background(), hsms.OpenBackground); err != nil {
+			rt.Fatalf("VERIF-INFRA: open: %v", err)
+		}
+		p, err := w.peerUp(5 * time.Second)
+		if err != nil {
+			rt.Fatalf("VERIF-INFRA: %v", err)
+		}
+		closed := make(chan error, 1)
+		defer func() {
+			p.Close()
+			if w.ln != nil {
+				_ = w.ln.Close()
+			}
+			go func() { _ = w.conn.Close() }()
+		}()
+		if err := w.selectAsPeer(p, 7); err != nil {
+			rt.Fatalf("VERIF-INFRA: %v", err)
+		}
+		if !waitState(w.conn, hsms.SelectedState, 3*time.Second) {
+			rt.Fatalf("VERIF-INFRA: never Selected")
+		}
+		dl.take()
+		p.C.SetInboundWindow(0)
+		p.C.StallInbound(true)
+		go func() { closed <- w.conn.Close() }()
+		if !waitState(w.conn, hsms.NotConnectedState, 3*time.Second) {
+			rt.Fatalf("C07 violated: State() did not report NotConnected within 3 s of Close")
+		}
+		k := rapid.IntRange(1, 3).Draw(rt, "frames")
+		var sent []string
+		for i := 0; i < k; i++ {
+			fn := byte(rapid.IntRange(0, 255).Draw(rt, "fn"))
+			f := e37.DataFrame(session, byte(rapid.IntRange(0, 127).Draw(rt, "s")), fn, fn%2 == 1 && rapid.Bool().Draw(rt, "w"), genSys(rt, nil), genBody(rt))
+			_ = p.Send(f)
+			sent = append(sent, fmt.Sprint(f))
+		}
+		time.Sleep(30 * time.Millisecond)
+		if d := dl.take(); len(d) != 0 {
+			rt.Fatalf("C07 violated (active=%v): %d of the data messages %v, written by the peer while Close was in progress and State() was NotConnected, reached the handlers", active, len(d), sent)
+		}
+		select {
+		case e := <-closed:
+			if e != nil {
+				rt.Fatalf("C07 violated: Close returned %v", e)
+			}
+		case <-time.After(4 * time.Second):
+			rt.Fatalf("C07 violated: Close did not return within 4 s (close timeout 1 s, farewell bound 500 ms)")
+		}
+		time.Sleep(10 * time.Millisecond)
+		if d := dl.take(); len(d) != 0 {
+			rt.Fatalf("C07 violated (active=%v): %d data messages reached the handlers after Close returned", active, len(d))
+		}
+		role := "passive"
+		if active {
+			role = "active"
+		}
+		ev.Case(true, fmt.Sprint(active, sent), func() any { return sent }, "c07:closing-stuck", "c07cs:role:"+role)
+	})
+}
